@@ -149,7 +149,10 @@ def path_rules(ctx, arg):
     got_mode = ''.join(chr(c) for c in chars_of(cfg.fields[2].fields[0])) if cfg.fields[2].variant == 1 else None
     m0 = w.get_model()
     ctx.res.witness = dict(rules=arg['rules'], branch=None if not has_branch else ''.join(chr(m0.eval(c, model_completion=True).as_long() if not isinstance(c, int) else c) for c in cs),
-                           rule=rule[0] if rule else None, label=got_label, mode=got_mode)
+                           rule=rule[0] if rule else None, label=got_label, mode=got_mode,
+                           flags=dict(label=flag_label, mode=flag_mode, num=(m0.eval(num, model_completion=True).as_long() if arg.get('num_flag') and m0.eval(has_num, model_completion=True).as_long() else None)),
+                           num=(lambda o: None if (o.variant if isinstance(o.variant, int) else m0.eval(o.variant, model_completion=True).as_long()) != 1 else
+                                (o.fields[0] if isinstance(o.fields[0], int) else m0.eval(o.fields[0], model_completion=True).as_long()))(cfg.fields[1]))
     if got_label != exp_label or got_mode != exp_mode:
         viol('rule_selection', m0, 'label/post-mode %s/%s, the first matching rule gives %s/%s' % (got_label, got_mode, exp_label, exp_mode))
         return
